@@ -7,6 +7,7 @@
    the session's client (Proofs/SessInv.v, rgC). *)
 From Verif Require Import Base Scope Types Prog Pop Token Authorize System Config Run Monitors Hoare Tactics OneShot
   C02Proofs C02Handlers C04More C17Proofs C19Proofs SessInv.
+From Verif Require Import ParStored.
 Local Open Scope N_scope.
 
 Definition nav_follows (rt : string) (code0 : id) (nv : nav) : Prop :=
@@ -277,7 +278,7 @@ Section Types.
   Qed.
   Lemma push_auth_rgt n now r : rgt (push_auth w n now r).
   Proof.
-    unfold push_auth, save_a. destruct (negb _); [exact I|].
+    unfold push_auth, save_a. destruct (par_stored_eq (pr_params r)) as [sd SE]; rewrite SE; clear SE. destruct (negb _); [exact I|].
     eapply rgC_bindq; [apply authenticated_rgCq|]. intros [c|] Hc; [|exact I]. cbn in Hc.
     destruct (negb (is_nil (p_request_uri (pr_params r)))); [exact I|].
     assert (K : match (if is_fapi (cf_profile (w_cfg w)) then validate_params (w_cfg w) (pr_params r) (client_for_par (w_cfg w) c (p_redirect (pr_params r)))
